@@ -40,7 +40,7 @@ def shards(tier, seed):
         q = tier == 'quick'
         out.append({
             'name': 's%d' % i, 'i': i, 'mem_gib': 4,
-            'frames': 18 if q else 260, 'values': 8 if q else 255,
+            'frames': 18 if q else 40, 'values': 8 if q else 255,
             'max_positions': 160 if q else 400,
             'rand': 300 if q else 6000,
             'deep': ([32, 64] if i == 1 else []) if q
